@@ -8,6 +8,7 @@ from ..core.astutil import (u, dotted, walk_local, calls_in, call_name, kwarg, m
                             assigned_targets, body_nodoc, inline_locals, single_assign_value)
 from ..core.loader import AnchorError, Undecided
 from ..core.report import Ctx
+from .c36 import Normalizer  # refactoring-tolerant normalisation (helper inlining, alias/constant propagation, idioms)
 
 TEN = "src/porepy/params/tensor.py"
 
@@ -25,15 +26,16 @@ META = {
         "parameter to, and every parameter is passed. R4 restrict_to_cells: works on self.copy(), restricts every name in "
         "constitutive_parameters on axis 0 and values on the last axis with the `cells` argument, returns the copy; every "
         "per-cell array FourthOrderTensor.__init__ stores is listed in constitutive_parameters. R5 rotate: index calculus "
-        "over the nested np.tensordot shows the result is R K R^T or R^T K R (both R factors contracted on the same side "
-        "with the two tensor indices of K), i.e. a similarity transform for orthogonal R. Not decided: numerical "
+        "over the nested np.tensordot / np.einsum shows the result is K' = R K R^T (both R factors contracted through their "
+        "column index with the two tensor indices of K, up to a transposition that is immaterial for symmetric K); R^T K R "
+        "(the inverse rotation: x^T K x != (Rx)^T K' (Rx)) and mixed contractions are findings. Not decided: numerical "
         "eigenvalue preservation, positive-definiteness guards, user-supplied other_fields matrices."),
     "rule_text": "one obligation per (off-diagonal pair | literal matrix x symmetry | constructor argument | stored object | restriction step | contraction)",
     "trusted_base": ["python ast / ast.literal_eval", "sa.core (loader, astutil)", "numpy semantics of basic-index stores, tensordot axes"],
     "assumptions": ["X.copy(), np.array(X), np.copy(X), copy.deepcopy(X) and arithmetic results do not share memory with X",
                     "storing into a slice of a freshly allocated array copies the data",
                     "tensor attributes are only assigned inside the class bodies analysed"],
-    "technique": "last-store table per matrix entry; literal evaluation; by-reference parameter analysis; Einstein-index calculus for tensordot",
+    "technique": "AST normalisation (one-level helper inlining, copy propagation, loop->comprehension); last-store table per matrix entry; literal evaluation; by-reference parameter analysis; Einstein-index calculus for tensordot/einsum",
 }
 MIN_INSTANCES = {"R1": 3, "R2": 4, "R3": 14, "R4": 8, "R5": 1}
 
@@ -106,12 +108,16 @@ def _find_ctor(fn, clsname: str):
 def run(ctx: Ctx) -> None:
     mod = ctx.repo.module(TEN)
     T, S2, S4 = mod.cls("Tensor"), mod.cls("SecondOrderTensor"), mod.cls("FourthOrderTensor")
-    stores2 = _r1_symmetric_stores(ctx, mod, S2)
+    norm = Normalizer(mod)
+    # methods as deep copies with private helpers inlined (one level), aliases / constants propagated, tuple and
+    # chained assignments split, list/dict building loops turned into comprehensions
+    M = {c.name: norm.methods(c, inline=True) for c in (T, S2, S4)}
+    stores2 = _r1_symmetric_stores(ctx, mod, M["SecondOrderTensor"])
     _r2_literals(ctx, mod, S4)
-    _r3_copy_second(ctx, mod, S2, stores2)
-    _r3_copy_fourth(ctx, mod, S4)
-    _r4_restrict(ctx, mod, T, S4)
-    _r5_rotate(ctx, mod, S2)
+    _r3_copy_second(ctx, mod, M["SecondOrderTensor"], stores2)
+    _r3_copy_fourth(ctx, mod, M["FourthOrderTensor"], S4)
+    _r4_restrict(ctx, mod, M["Tensor"], M["FourthOrderTensor"])
+    _r5_rotate(ctx, mod, M["SecondOrderTensor"])
 
 
 # ---------------- R1 ---------------------------------------------------------------------------
@@ -120,8 +126,8 @@ def _const_int(e: ast.expr):
     return e.value if isinstance(e, ast.Constant) and isinstance(e.value, int) and not isinstance(e.value, bool) else None
 
 
-def _r1_symmetric_stores(ctx: Ctx, mod, S2) -> dict[tuple[int, int], str]:
-    init = methods(S2).get("__init__")
+def _r1_symmetric_stores(ctx: Ctx, mod, m2) -> dict[tuple[int, int], str]:
+    init = m2.get("__init__")
     if init is None:
         raise AnchorError(f"{TEN}:SecondOrderTensor.__init__ missing")
     q = "SecondOrderTensor.__init__"
@@ -140,15 +146,17 @@ def _r1_symmetric_stores(ctx: Ctx, mod, S2) -> dict[tuple[int, int], str]:
                  if isinstance(t, ast.Subscript) and u(t.value) == arr]
         if not inner:
             continue
-        if not (isinstance(s, ast.Assign) and len(s.targets) == 1 and inner == [s]):
+        if not (isinstance(s, ast.Assign) and set(map(id, inner)) == {id(s)}
+                and all(isinstance(t, ast.Subscript) and u(t.value) == arr for t in s.targets)):
             raise Undecided(f"{q}: conditional/augmented store into `{arr}`: {u(s)[:70]}")
-        sl = s.targets[0].slice
-        elts = sl.elts if isinstance(sl, ast.Tuple) else [sl]
-        if len(elts) < 2 or _const_int(elts[0]) is None or _const_int(elts[1]) is None:
-            raise Undecided(f"{q}: store `{u(s)}` does not address one (i, j) entry")
-        if any(not (isinstance(e, ast.Slice) and e.lower is None and e.upper is None) for e in elts[2:]):
-            raise Undecided(f"{q}: store `{u(s)}` addresses a subset of the cells")
-        final[(elts[0].value, elts[1].value)] = (u(s.value), pos)
+        for tgt in s.targets:   # chained assignment: every target receives the same right-hand side
+            sl = tgt.slice
+            elts = sl.elts if isinstance(sl, ast.Tuple) else [sl]
+            if len(elts) < 2 or _const_int(elts[0]) is None or _const_int(elts[1]) is None:
+                raise Undecided(f"{q}: store `{u(s)}` does not address one (i, j) entry")
+            if any(not (isinstance(e, ast.Slice) and e.lower is None and e.upper is None) for e in elts[2:]):
+                raise Undecided(f"{q}: store `{u(s)}` addresses a subset of the cells")
+            final[(elts[0].value, elts[1].value)] = (u(s.value), pos)
     offd = sorted({tuple(sorted(k)) for k in final if k[0] != k[1]})
     if not offd:
         raise AnchorError(f"{q}: no off-diagonal stores found")
@@ -183,11 +191,20 @@ def _r2_literals(ctx: Ctx, mod, S4) -> None:
     init = methods(S4).get("__init__")
     if init is None:
         raise AnchorError(f"{TEN}:FourthOrderTensor.__init__ missing")
-    q = "FourthOrderTensor.__init__"
     n = 0
-    for s in stmts_local(init):
-        if not (isinstance(s, (ast.Assign, ast.AnnAssign)) and isinstance(getattr(s, "value", None), ast.Call)):
+    quals = {id(node): qn for qn, node in mod.qualnames().items()}
+    # literal square matrices: in __init__, or moved to class / module level
+    owners: list[tuple[str, ast.stmt]] = []
+    for scope, qn in [(mod.tree, "<module>")] + [(node, qn) for qn, node in mod.qualnames().items()]:
+        body = getattr(scope, "body", [])
+        for s in (stmts_local(scope) if isinstance(scope, ast.FunctionDef) else body):
+            if isinstance(s, (ast.Assign, ast.AnnAssign)) and isinstance(getattr(s, "value", None), ast.Call):
+                owners.append((qn, s))
+    seen = set()
+    for q, s in owners:
+        if id(s) in seen:
             continue
+        seen.add(id(s))
         c = s.value
         if not (dotted(c.func) in ("np.array", "numpy.array", "np.asarray") and c.args and isinstance(c.args[0], ast.List)):
             continue
@@ -219,7 +236,7 @@ def _r2_literals(ctx: Ctx, mod, S4) -> None:
                       desc=f"literal basis matrix {name} has the minor symmetries")
         ctx.sample({"rule": "R2", "matrix": name, "size": N})
     if n < 2:
-        raise AnchorError(f"{q}: literal basis matrices not found")
+        raise AnchorError(f"{TEN}: literal basis matrices of the fourth order tensor not found")
 
 
 # ---------------- R3 (second order) ---------------------------------------------------------------
@@ -248,8 +265,53 @@ def _byref_params(init) -> dict[str, str]:
     return out
 
 
-def _r3_copy_second(ctx: Ctx, mod, S2, stores2) -> None:
-    meths = methods(S2)
+def _expand_star_kwargs(mod, fn: ast.FunctionDef, call: ast.Call) -> ast.Call:
+    """`Cls(**{name: E(i, j) for name, (i, j) in TABLE.items()})` with a literal TABLE (local or module level)
+    -> the equivalent call with one explicit keyword per table row."""
+    stars = [k for k in call.keywords if k.arg is None]
+    if not stars:
+        return call
+    if len(stars) != 1:
+        raise Undecided("constructor call with several ** arguments")
+    d = stars[0].value
+    if isinstance(d, ast.Name):
+        d = single_assign_value(fn, d.id)
+    if not (isinstance(d, ast.DictComp) and len(d.generators) == 1 and not d.generators[0].ifs):
+        raise Undecided("constructor call with **kwargs that are not a dict comprehension over a literal table")
+    gen = d.generators[0]
+    it = gen.iter
+    if not (isinstance(it, ast.Call) and call_name(it) == "items" and isinstance(it.func, ast.Attribute)):
+        raise Undecided("**kwargs comprehension does not iterate <table>.items()")
+    tab = it.func.value
+    if isinstance(tab, ast.Name):
+        local = single_assign_value(fn, tab.id)
+        if local is None:
+            defs = [st for st in mod.tree.body if isinstance(st, (ast.Assign, ast.AnnAssign)) and getattr(st, "value", None) is not None
+                    and [u(t) for t in assigned_targets(st)] == [tab.id]]
+            local = defs[0].value if len(defs) == 1 else None
+        tab = local
+    if not isinstance(tab, ast.Dict) or not all(isinstance(k, ast.Constant) and isinstance(k.value, str) for k in tab.keys):
+        raise Undecided("**kwargs comprehension iterates something that is not a literal table")
+    tgt = gen.target
+    if not (isinstance(tgt, ast.Tuple) and len(tgt.elts) == 2 and isinstance(tgt.elts[0], ast.Name) and u(d.key) == tgt.elts[0].id):
+        raise Undecided("**kwargs comprehension does not use the table key as keyword")
+    from ..core.astutil import subst
+    kws = [k for k in call.keywords if k.arg is not None]
+    for k, v in zip(tab.keys, tab.values):
+        vt = tgt.elts[1]
+        mapping: dict[str, ast.AST] = {}
+        if isinstance(vt, ast.Name):
+            mapping[vt.id] = v
+        elif isinstance(vt, ast.Tuple) and isinstance(v, ast.Tuple) and len(vt.elts) == len(v.elts) and all(isinstance(x, ast.Name) for x in vt.elts):
+            mapping = {x.id: y for x, y in zip(vt.elts, v.elts)}
+        else:
+            raise Undecided("**kwargs comprehension: table rows do not match the loop target")
+        kws.append(ast.keyword(arg=k.value, value=subst(d.value, mapping)))
+    new = ast.Call(func=call.func, args=list(call.args), keywords=kws)
+    return ast.copy_location(new, call)
+
+
+def _r3_copy_second(ctx: Ctx, mod, meths, stores2) -> None:
     init, cp = meths["__init__"], meths.get("copy")
     if cp is None:
         raise AnchorError(f"{TEN}:SecondOrderTensor.copy missing")
@@ -259,6 +321,7 @@ def _r3_copy_second(ctx: Ctx, mod, S2, stores2) -> None:
     if fc is None:
         raise Undecided(f"{q}: constructor call not found")
     new, call = fc
+    call = _expand_star_kwargs(mod, cp, call)
     args = _ctor_args(call, init)
     where: dict[str, set] = {}
     for (i, j), rhs in stores2.items():
@@ -309,8 +372,68 @@ def _post_stores_fresh(ctx: Ctx, mod, q, cp, new) -> None:
 
 # ---------------- R3 (fourth order) -----------------------------------------------------------------
 
-def _r3_copy_fourth(ctx: Ctx, mod, S4) -> None:
-    meths = methods(S4)
+def _extra_fields(init: ast.FunctionDef):
+    """How __init__ stores the dict-valued parameter of per-key (matrix, field) pairs:
+    -> (dict parameter, key, matrix, field names, attribute holding the matrices, loop)."""
+    ps = _params(init)
+    loops = []
+    for lp in [x for x in stmts_local(init) if isinstance(x, ast.For)]:
+        it = lp.iter
+        if isinstance(it, ast.Call) and call_name(it) == "items" and isinstance(it.func, ast.Attribute) and isinstance(it.func.value, ast.Name) \
+                and it.func.value.id in ps:
+            loops.append((lp, it.func.value.id, "items"))
+        elif isinstance(it, ast.Name) and it.id in ps:
+            loops.append((lp, it.id, "keys"))
+        elif isinstance(it, ast.Call) and call_name(it) == "keys" and isinstance(it.func, ast.Attribute) and isinstance(it.func.value, ast.Name) \
+                and it.func.value.id in ps:
+            loops.append((lp, it.func.value.id, "keys"))
+    if len(loops) != 1:
+        raise Undecided("FourthOrderTensor.__init__: loop over the extra fields not found")
+    loop, dparam, how = loops[0]
+    tg = loop.target
+    key = mat = field = None
+    body = list(loop.body)
+    if how == "items" and isinstance(tg, ast.Tuple) and len(tg.elts) == 2 and isinstance(tg.elts[0], ast.Name):
+        key = tg.elts[0].id
+        second = tg.elts[1]
+        if isinstance(second, ast.Tuple) and len(second.elts) == 2 and all(isinstance(x, ast.Name) for x in second.elts):
+            mat, field = second.elts[0].id, second.elts[1].id
+        elif isinstance(second, ast.Name):
+            pair = second.id
+            for st in body:   # mat, field = pair   /   mat = pair[0]; field = pair[1]
+                if isinstance(st, ast.Assign) and len(st.targets) == 1 and isinstance(st.targets[0], ast.Tuple) and u(st.value) == pair \
+                        and len(st.targets[0].elts) == 2 and all(isinstance(x, ast.Name) for x in st.targets[0].elts):
+                    mat, field = st.targets[0].elts[0].id, st.targets[0].elts[1].id
+                if isinstance(st, ast.Assign) and len(st.targets) == 1 and isinstance(st.targets[0], ast.Name) and isinstance(st.value, ast.Subscript) \
+                        and u(st.value.value) == pair and isinstance(st.value.slice, ast.Constant):
+                    if st.value.slice.value == 0:
+                        mat = st.targets[0].id
+                    elif st.value.slice.value == 1:
+                        field = st.targets[0].id
+    elif how == "keys" and isinstance(tg, ast.Name):
+        key = tg.id
+        for st in body:       # mat, field = other_fields[key]
+            if isinstance(st, ast.Assign) and len(st.targets) == 1 and isinstance(st.targets[0], ast.Tuple) and u(st.value) == f"{dparam}[{key}]" \
+                    and len(st.targets[0].elts) == 2 and all(isinstance(x, ast.Name) for x in st.targets[0].elts):
+                mat, field = st.targets[0].elts[0].id, st.targets[0].elts[1].id
+    if None in (key, mat, field):
+        raise Undecided(f"FourthOrderTensor.__init__: loop `for {u(tg)} in {u(loop.iter)}` does not unpack key, (matrix, field)")
+    set_field = [c for c in calls_in(loop) if isinstance(c.func, ast.Name) and c.func.id == "setattr" and [u(a) for a in c.args] == ["self", key, field]]
+    mats_attr = None
+    for st in ast.walk(loop):
+        if isinstance(st, ast.Assign) and isinstance(st.targets[0], ast.Subscript) and _self_attr(st.targets[0].value) \
+                and u(st.targets[0].slice) == key and u(st.value) == mat:
+            mats_attr = _self_attr(st.targets[0].value)          # self.<mats>[key] = mat
+        if isinstance(st, ast.Call) and isinstance(st.func, ast.Attribute) and st.func.attr == "update" and _self_attr(st.func.value) \
+                and len(st.args) == 1 and isinstance(st.args[0], ast.Dict) and [u(k) for k in st.args[0].keys] == [key] \
+                and [u(v) for v in st.args[0].values] == [mat]:
+            mats_attr = _self_attr(st.func.value)                  # self.<mats>.update({key: mat})
+    if len(set_field) != 1 or mats_attr is None:
+        raise Undecided("FourthOrderTensor.__init__: extra fields are not stored as setattr(self, key, field) / self.<mats>[key] = mat")
+    return dparam, key, mat, field, mats_attr, loop
+
+
+def _r3_copy_fourth(ctx: Ctx, mod, meths, S4) -> None:
     init, cp = meths["__init__"], meths.get("copy")
     if cp is None:
         raise AnchorError(f"{TEN}:FourthOrderTensor.copy missing")
@@ -333,66 +456,60 @@ def _r3_copy_fourth(ctx: Ctx, mod, S4) -> None:
         src = _self_attr(inner)
         if src is None and not fresh:
             raise Undecided(f"{q}: argument {p}={u(e)} not recognised")
+        if src is None:
+            raise Undecided(f"{q}: argument {p}={u(e)} is not taken from an attribute of self")
         ok = fresh and src == attr
         why = ("the copy's " + attr + " is the very array of the original (in-place edits and restrict_to_cells leak)" if not fresh
                else f"taken from self.{src}, but __init__ keeps `{p}` in self.{attr}")
         ctx.check("R3", ok, mod, q, call, f"copy() passes {p} = {u(e)}: {why}",
                   construct=f"copy {p} <- {u(e)}", desc=f"copy() passes a fresh copy of self.{attr} for `{p}`")
-    # the dict-valued parameter: per-key (matrix, field) pairs
-    loops = [s for s in stmts_local(init) if isinstance(s, ast.For) and isinstance(s.iter, ast.Call) and call_name(s.iter) == "items"
-             and isinstance(s.iter.func, ast.Attribute) and isinstance(s.iter.func.value, ast.Name) and s.iter.func.value.id in _params(init)]
-    if len(loops) != 1:
-        raise Undecided("FourthOrderTensor.__init__: loop over the extra fields not found")
-    loop = loops[0]
-    dparam = loop.iter.func.value.id
-    tg = loop.target
-    if not (isinstance(tg, ast.Tuple) and len(tg.elts) == 2 and isinstance(tg.elts[0], ast.Name) and isinstance(tg.elts[1], ast.Tuple)
-            and len(tg.elts[1].elts) == 2 and all(isinstance(x, ast.Name) for x in tg.elts[1].elts)):
-        raise Undecided(f"FourthOrderTensor.__init__: loop target {u(tg)} is not key, (matrix, field)")
-    key, mat, field = tg.elts[0].id, tg.elts[1].elts[0].id, tg.elts[1].elts[1].id
-    set_field = [c for c in calls_in(loop) if isinstance(c.func, ast.Name) and c.func.id == "setattr" and [u(a) for a in c.args] == ["self", key, field]]
-    mat_store = [s for s in loop.body if isinstance(s, ast.Assign) and isinstance(s.targets[0], ast.Subscript)
-                 and _self_attr(s.targets[0].value) and u(s.targets[0].slice) == key and u(s.value) == mat]
-    if len(set_field) != 1 or len(mat_store) != 1:
-        raise Undecided("FourthOrderTensor.__init__: extra fields are not stored as setattr(self, key, field) / self.<mats>[key] = mat")
-    mats_attr = _self_attr(mat_store[0].targets[0].value)
-    # copy(): dict built from self.<mats>.items()
+    dparam, key, mat, field, mats_attr, _ = _extra_fields(init)
+    # copy(): dict built from self.<mats>.items() (comprehension, or a loop filling a local dict)
     d_arg = args.get(dparam)
     if d_arg is None:
         ctx.check("R3", False, mod, q, call, f"copy() does not pass `{dparam}`: the extra constitutive fields are lost",
                   construct=f"copy {dparam} <- missing")
     else:
-        if not isinstance(d_arg, ast.Name):
-            raise Undecided(f"{q}: {dparam}={u(d_arg)} is not a local dict")
-        dn = d_arg.id
-        cl = [s for s in stmts_local(cp) if isinstance(s, ast.For) and any(isinstance(x, ast.Assign) and isinstance(x.targets[0], ast.Subscript)
-                                                                        and u(x.targets[0].value) == dn for x in s.body)]
-        if len(cl) != 1:
-            raise Undecided(f"{q}: dict `{dn}` is not filled in one loop")
-        lp = cl[0]
-        it_ok = u(lp.iter) == f"self.{mats_attr}.items()" and isinstance(lp.target, ast.Tuple) and len(lp.target.elts) == 2
-        ctx.check("R3", it_ok, mod, q, lp, f"copy() must pass every extra field on: iterate self.{mats_attr}.items() (found {u(lp.iter)})",
-                  construct=f"extra fields loop over {u(lp.iter)}", desc="copy() passes every extra field on")
+        node = d_arg
+        if isinstance(d_arg, ast.Name):
+            node = single_assign_value(cp, d_arg.id)
+        it = tgt = kexpr = vexpr = None
+        where: ast.AST = call
+        if isinstance(node, ast.DictComp) and len(node.generators) == 1 and not node.generators[0].ifs:
+            it, tgt, kexpr, vexpr, where = node.generators[0].iter, node.generators[0].target, node.key, node.value, node
+        elif isinstance(d_arg, ast.Name):
+            dn = d_arg.id
+            cl = [x for x in stmts_local(cp) if isinstance(x, ast.For) and any(isinstance(y, ast.Assign) and isinstance(y.targets[0], ast.Subscript)
+                                                                            and u(y.targets[0].value) == dn for y in x.body)]
+            if len(cl) == 1:
+                st = [y for y in cl[0].body if isinstance(y, ast.Assign) and isinstance(y.targets[0], ast.Subscript) and u(y.targets[0].value) == dn]
+                if len(st) == 1:
+                    it, tgt, kexpr, vexpr, where = cl[0].iter, cl[0].target, st[0].targets[0].slice, st[0].value, st[0]
+        if it is None:
+            raise Undecided(f"{q}: `{dparam}={u(d_arg)}` is not built by one comprehension / loop")
+        it_ok = u(it) == f"self.{mats_attr}.items()" and isinstance(tgt, ast.Tuple) and len(tgt.elts) == 2
+        if not it_ok and f"self.{mats_attr}" not in u(it):
+            raise Undecided(f"{q}: extra fields are collected from {u(it)}")
+        ctx.check("R3", it_ok, mod, q, where, f"copy() must pass every extra field on: iterate self.{mats_attr}.items() (found {u(it)})",
+                  construct=f"extra fields loop over {u(it)}", desc="copy() passes every extra field on")
         if it_ok:
-            k2, m2 = u(lp.target.elts[0]), u(lp.target.elts[1])
-            st = [x for x in lp.body if isinstance(x, ast.Assign) and isinstance(x.targets[0], ast.Subscript) and u(x.targets[0].value) == dn]
-            if len(st) != 1 or u(st[0].targets[0].slice) != k2 or not (isinstance(st[0].value, ast.Tuple) and len(st[0].value.elts) == 2):
-                raise Undecided(f"{q}: `{dn}[{k2}]` is not assigned a (matrix, field) pair")
-            me, fe = st[0].value.elts
+            k2, m2 = u(tgt.elts[0]), u(tgt.elts[1])
+            if u(kexpr) != k2 or not (isinstance(vexpr, ast.Tuple) and len(vexpr.elts) == 2):
+                raise Undecided(f"{q}: entries of `{dparam}` are not key: (matrix, field) pairs")
+            me, fe = vexpr.elts
             fresh, inner = _fresh_source(fe)
             src = _self_attr(inner)
-            if src is None and not fresh:
+            if src is None:
                 raise Undecided(f"{q}: field expression {u(fe)} not recognised")
-            ctx.check("R3", fresh and src == f"<getattr:{k2}>", mod, q, st[0],
+            ctx.check("R3", fresh and src == f"<getattr:{k2}>", mod, q, where,
                       f"copy() passes the field {u(fe)} for key {k2}: " + ("it is kept by reference (setattr(self, key, field)), so the copy "
                                                                           "shares the array with the original" if not fresh else f"taken from {src}"),
                       construct=f"extra field <- {u(fe)}", desc="copy() passes a fresh copy of each extra field")
-            ctx.check("R3", u(me) == m2, mod, q, st[0], f"copy() pairs key {k2} with {u(me)} instead of its own basis matrix {m2}",
+            ctx.check("R3", u(me) == m2, mod, q, where, f"copy() pairs key {k2} with {u(me)} instead of its own basis matrix {m2}",
                       construct=f"extra matrix <- {u(me)}", desc="copy() pairs each extra field with its own basis matrix")
     # whitelist: the shared basis matrices are never written in place
-    cls_nodes = list(ast.walk(S4))
     writes = []
-    for s in cls_nodes:
+    for s in ast.walk(S4):
         if isinstance(s, (ast.Assign, ast.AugAssign)):
             for t in assigned_targets(s):
                 root = t
@@ -412,8 +529,8 @@ def _r3_copy_fourth(ctx: Ctx, mod, S4) -> None:
 
 # ---------------- R4 ---------------------------------------------------------------------------
 
-def _r4_restrict(ctx: Ctx, mod, T, S4) -> None:
-    fn = methods(T).get("restrict_to_cells")
+def _r4_restrict(ctx: Ctx, mod, mT, m4) -> None:
+    fn = mT.get("restrict_to_cells")
     if fn is None:
         raise AnchorError(f"{TEN}:Tensor.restrict_to_cells missing")
     q = "Tensor.restrict_to_cells"
@@ -468,6 +585,8 @@ def _r4_restrict(ctx: Ctx, mod, T, S4) -> None:
             env[s.targets[0].id] = s.value
     ok = False
     got = u(val)
+    if isinstance(val, ast.Name) and val.id in env:
+        val = env[val.id]
     if isinstance(val, ast.Subscript):
         base = val.value
         if isinstance(base, ast.Name) and base.id in env:
@@ -488,14 +607,26 @@ def _r4_restrict(ctx: Ctx, mod, T, S4) -> None:
         ctx.check("R4", False, mod, q, fn, "the `values` array is not restricted", construct="restrict values <- missing")
     else:
         v = vs[0].value
-        if not isinstance(v, ast.Subscript):
+        from ..core.astutil import arg_or_kw
+        if isinstance(v, ast.Call) and call_name(v) == "take":
+            # np.take(values, cells, axis=2) / values.take(cells, axis=-1)
+            fnc = dotted(v.func) in ("np.take", "numpy.take")
+            base = v.args[0] if fnc and v.args else (v.func.value if isinstance(v.func, ast.Attribute) else None)
+            idx = arg_or_kw(v, 1 if fnc else 0, "indices")
+            ax = arg_or_kw(v, 2 if fnc else 1, "axis")
+            if base is None or idx is None:
+                raise Undecided(f"{q}: {u(v)} not understood")
+            last_axis = u(idx) == cells and ax is not None and u(ax) in ("2", "-1")
+            base_ok = u(base) in (f"{obj}.values", "self.values")
+        elif not isinstance(v, ast.Subscript):
             raise Undecided(f"{q}: {u(vs[0])} is not a subscript")
-        sl = v.slice
-        elts = sl.elts if isinstance(sl, ast.Tuple) else [sl]
-        full = lambda e: isinstance(e, ast.Slice) and e.lower is None and e.upper is None  # noqa: E731
-        last_axis = (len(elts) == 3 and full(elts[0]) and full(elts[1]) and u(elts[2]) == cells) or \
-                    (len(elts) == 2 and isinstance(elts[0], ast.Constant) and elts[0].value is Ellipsis and u(elts[1]) == cells)
-        base_ok = u(v.value) in (f"{obj}.values", "self.values")
+        else:
+            sl = v.slice
+            elts = sl.elts if isinstance(sl, ast.Tuple) else [sl]
+            full = lambda e: isinstance(e, ast.Slice) and e.lower is None and e.upper is None  # noqa: E731
+            last_axis = (len(elts) == 3 and full(elts[0]) and full(elts[1]) and u(elts[2]) == cells) or \
+                        (len(elts) == 2 and isinstance(elts[0], ast.Constant) and elts[0].value is Ellipsis and u(elts[1]) == cells)
+            base_ok = u(v.value) in (f"{obj}.values", "self.values")
         ctx.check("R4", last_axis and base_ok, mod, q, vs[0],
                   f"values has shape (n, n, num_cells): it must be restricted as values[:, :, {cells}]; found {u(v)}",
                   construct=f"restrict values: {u(v)}", desc="values restricted on the cell (last) axis")
@@ -503,35 +634,56 @@ def _r4_restrict(ctx: Ctx, mod, T, S4) -> None:
     ctx.check("R4", len(rets) == 1 and u(rets[0].value) == obj and obj != "self", mod, q, rets[0] if rets else fn,
               "the restricted copy must be returned", construct=f"restrict returns {u(rets[0].value) if rets else None}")
     # completeness of constitutive_parameters for FourthOrderTensor
-    init = methods(S4)["__init__"]
-    prop = methods(S4).get("constitutive_parameters")
+    init = m4["__init__"]
+    prop = m4.get("constitutive_parameters")
     if prop is None:
         raise AnchorError("FourthOrderTensor.constitutive_parameters missing")
     pr = [s for s in stmts_local(prop) if isinstance(s, ast.Return)]
     lst_attr = _self_attr(pr[0].value) if len(pr) == 1 and pr[0].value is not None else None
     if lst_attr is None:
         raise Undecided("FourthOrderTensor.constitutive_parameters does not return an attribute of self")
-    lits = [s for s in stmts_local(init) if isinstance(s, ast.Assign) and any(u(t) == f"self.{lst_attr}" for t in s.targets)]
-    if len(lits) != 1 or not isinstance(lits[0].value, ast.List) or not all(isinstance(e, ast.Constant) for e in lits[0].value.elts):
-        raise Undecided(f"FourthOrderTensor.__init__: self.{lst_attr} is not one list literal")
-    listed = {e.value for e in lits[0].value.elts}
+    lits = [s for s in stmts_local(init) if isinstance(s, (ast.Assign, ast.AnnAssign)) and getattr(s, "value", None) is not None
+            and any(u(t) == f"self.{lst_attr}" for t in assigned_targets(s))]
+    if len(lits) != 1:
+        raise Undecided(f"FourthOrderTensor.__init__: self.{lst_attr} is not assigned exactly once")
+    lv = lits[0].value
+    lists = [n for n in ast.walk(lv) if isinstance(n, ast.List)]
+    if not lists:
+        raise Undecided(f"FourthOrderTensor.__init__: self.{lst_attr} = {u(lv)[:60]} is not built from a list literal")
+    listed = {e.value for L in lists for e in L.elts if isinstance(e, ast.Constant)}
+    dparam, key, mat, field, mats_attr, loop = _extra_fields(init)
     q4 = "FourthOrderTensor.__init__"
     for p, attr in sorted(_byref_params(init).items()):
         ctx.check("R4", attr in listed, mod, q4, lits[0],
                   f"per-cell array self.{attr} is stored but not listed in constitutive_parameters {sorted(listed)}: restrict_to_cells "
                   f"leaves it at full size", construct=f"constitutive parameter {attr} listed: {attr in listed}",
                   desc=f"self.{attr} is listed in constitutive_parameters")
-    for lp2 in [s for s in stmts_local(init) if isinstance(s, ast.For)]:
-        sf = [c for c in calls_in(lp2) if isinstance(c.func, ast.Name) and c.func.id == "setattr" and len(c.args) == 3 and u(c.args[0]) == "self"]
-        for c in sf:
-            k = u(c.args[1])
-            app = [a for a in calls_in(lp2) if isinstance(a.func, ast.Attribute) and a.func.attr == "append"
-                   and _self_attr(a.func.value) == lst_attr and [u(x) for x in a.args] == [k]]
-            top = [s for s in lp2.body if isinstance(s, ast.Expr) and s.value in app]
-            ctx.check("R4", bool(top), mod, q4, c,
-                      f"extra field setattr(self, {k}, ...) is not appended to self.{lst_attr}: restrict_to_cells leaves it at full size",
-                      construct=f"extra field {k} appended to {lst_attr}: {bool(top)}",
-                      desc="every extra field is appended to constitutive_parameters")
+    # every extra field name reaches the list: all keys at once (`[..., *other_fields]`), or one by one in the loop
+    all_at_once = dparam in names_in(lv)
+    one_by_one = False
+    mentions = False
+    for st in ast.walk(loop):
+        if isinstance(st, ast.Call) and isinstance(st.func, ast.Attribute) and _self_attr(st.func.value) == lst_attr:
+            mentions = True
+            if st.func.attr == "append" and [u(a) for a in st.args] == [key]:
+                one_by_one = True
+            if st.func.attr == "extend" and len(st.args) == 1 and isinstance(st.args[0], (ast.List, ast.Tuple)) and [u(a) for a in st.args[0].elts] == [key]:
+                one_by_one = True
+        if isinstance(st, ast.AugAssign) and _self_attr(st.target) == lst_attr:
+            mentions = True
+            if isinstance(st.op, ast.Add) and isinstance(st.value, (ast.List, ast.Tuple)) and [u(a) for a in st.value.elts] == [key]:
+                one_by_one = True
+    for st in stmts_local(init):
+        if st is not lits[0] and st not in list(ast.walk(loop)) and any(
+                (isinstance(n, ast.Attribute) and _self_attr(n) == lst_attr) for n in ast.walk(st)) and dparam in names_in(st):
+            mentions = True
+    if not (all_at_once or one_by_one) and mentions:
+        raise Undecided(f"FourthOrderTensor.__init__: self.{lst_attr} is extended in a way that is not recognised")
+    ok = all_at_once or one_by_one
+    ctx.check("R4", ok, mod, q4, loop,
+              f"extra field setattr(self, {key}, ...) is not added to self.{lst_attr}: restrict_to_cells leaves it at full size",
+              construct=f"extra field {key} added to {lst_attr}: {ok}",
+              desc="every extra field is added to constitutive_parameters")
 
 
 # ---------------- R5 ---------------------------------------------------------------------------
@@ -545,7 +697,16 @@ class _Labels:
         return self.n
 
 
-def _term(e: ast.expr, R: str, lab: _Labels):
+def _axis(e: ast.expr):
+    """literal axis: 1 / [1] / (1,) -> 1"""
+    if isinstance(e, (ast.List, ast.Tuple)) and len(e.elts) == 1:
+        e = e.elts[0]
+    if isinstance(e, ast.UnaryOp) and isinstance(e.op, ast.USub) and _const_int(e.operand) is not None:
+        return -e.operand.value
+    return _const_int(e)
+
+
+def _term(e: ast.expr, R: str, lab: _Labels, fn=None, depth: int = 0):
     """-> (factors: list[(name, [labels])], free: [labels])."""
     if isinstance(e, ast.Name) and e.id == R:
         a, b = lab.new(), lab.new()
@@ -556,13 +717,17 @@ def _term(e: ast.expr, R: str, lab: _Labels):
     if u(e) == "self.values":
         i, j, c = lab.new(), lab.new(), lab.new()
         return [("K", [i, j, c])], [i, j, c]
+    if isinstance(e, ast.Name) and fn is not None and depth < 6:
+        v = single_assign_value(fn, e.id)
+        if v is not None:
+            return _term(v, R, lab, fn, depth + 1)
     if isinstance(e, ast.Call) and call_name(e) == "tensordot" and len(e.args) >= 2:
         ax = e.args[2] if len(e.args) > 2 else kwarg(e, "axes")
-        if not (isinstance(ax, ast.Tuple) and len(ax.elts) == 2 and all(_const_int(x) is not None for x in ax.elts)):
-            raise Undecided(f"tensordot axes {u(ax) if ax is not None else None} are not a pair of literal ints")
-        p, qx = ax.elts[0].value, ax.elts[1].value
-        fa, xa = _term(e.args[0], R, lab)
-        fb, xb = _term(e.args[1], R, lab)
+        if not (isinstance(ax, (ast.Tuple, ast.List)) and len(ax.elts) == 2 and all(_axis(x) is not None for x in ax.elts)):
+            raise Undecided(f"tensordot axes {u(ax) if ax is not None else None} are not a pair of literal axes")
+        p, qx = _axis(ax.elts[0]), _axis(ax.elts[1])
+        fa, xa = _term(e.args[0], R, lab, fn, depth + 1)
+        fb, xb = _term(e.args[1], R, lab, fn, depth + 1)
         if not (-len(xa) <= p < len(xa) and -len(xb) <= qx < len(xb)):
             raise Undecided("tensordot axis out of range")
         la, lb = xa[p], xb[qx]
@@ -570,11 +735,36 @@ def _term(e: ast.expr, R: str, lab: _Labels):
         xb2 = [x for k, x in enumerate(xb) if k != qx % len(xb)]
         xa2 = [x for k, x in enumerate(xa) if k != p % len(xa)]
         return fa + fb, xa2 + xb2
-    raise Undecided(f"rotation expression `{u(e)[:60]}` is not a nest of np.tensordot over R, R.T and self.values")
+    if isinstance(e, ast.Call) and call_name(e) == "einsum" and e.args and isinstance(e.args[0], ast.Constant) and isinstance(e.args[0].value, str):
+        spec = e.args[0].value.replace(" ", "")
+        if "->" not in spec or "." in spec:
+            raise Undecided(f"einsum specification {spec!r} without explicit output / with ellipsis")
+        ins, outp = spec.split("->")
+        subs = ins.split(",")
+        if len(subs) != len(e.args) - 1:
+            raise Undecided(f"einsum specification {spec!r} does not match its operands")
+        letters: dict[str, int] = {}
+        factors = []
+        for sub, opnd in zip(subs, e.args[1:]):
+            f1, x1 = _term(opnd, R, lab, fn, depth + 1)
+            if len(f1) != 1 or len(sub) != len(x1):
+                raise Undecided(f"einsum operand {u(opnd)} / subscripts {sub!r} not understood")
+            ren = {}
+            for ch, l0 in zip(sub, x1):
+                ren[l0] = letters.setdefault(ch, lab.new())
+            factors.append((f1[0][0], [ren[x] for x in f1[0][1]]))
+        if any(ch not in letters for ch in outp):
+            raise Undecided(f"einsum output {outp!r} uses unknown subscripts")
+        # a subscript that is neither in the output nor repeated would be summed on its own: not a contraction we model
+        for ch in letters:
+            if ch not in outp and sum(sub.count(ch) for sub in subs) != 2:
+                raise Undecided(f"einsum subscript {ch!r} is summed without a partner")
+        return factors, [letters[ch] for ch in outp]
+    raise Undecided(f"rotation expression `{u(e)[:60]}` is not a nest of np.tensordot / np.einsum over R, R.T and self.values")
 
 
-def _r5_rotate(ctx: Ctx, mod, S2) -> None:
-    fn = methods(S2).get("rotate")
+def _r5_rotate(ctx: Ctx, mod, m2) -> None:
+    fn = m2.get("rotate")
     if fn is None:
         raise AnchorError(f"{TEN}:SecondOrderTensor.rotate missing")
     q = "SecondOrderTensor.rotate"
@@ -585,7 +775,7 @@ def _r5_rotate(ctx: Ctx, mod, S2) -> None:
     st = [s for s in stmts_local(fn) if isinstance(s, ast.Assign) and any(u(t) == "self.values" for t in s.targets)]
     if len(st) != 1:
         raise Undecided(f"{q}: self.values is not assigned exactly once")
-    factors, free = _term(inline_locals(fn, st[0].value, stop={"self", R}), R, _Labels())
+    factors, free = _term(st[0].value, R, _Labels(), fn)
     Rs = [ix for n, ix in factors if n == "R"]
     Ks = [ix for n, ix in factors if n == "K"]
     problems = []
@@ -605,18 +795,22 @@ def _r5_rotate(ctx: Ctx, mod, S2) -> None:
             other = ix[1 - hit[0][0]]
             if other not in free:
                 problems.append("the uncontracted index of a rotation factor is not an output index")
-        if used != {i, j}:
+        if used != {i, j} and not problems:
             problems.append("both rotation factors are contracted with the same index of K (or one index of K is left over)")
         if len(sides) == 2 and sides[0] != sides[1]:
             problems.append("one factor is contracted through its rows and the other through its columns: the result is R K R "
                             "(or R^T K R^T), not a similarity transform")
+        elif len(sides) == 2 and sides[0] == 0:
+            problems.append("both factors are contracted through their ROW index: the result is R^T K R, the rotation by the inverse "
+                            "of R (symmetry and eigenvalues survive, but x^T K x != (R x)^T K' (R x): principal directions turn the "
+                            "wrong way); K' = R K R^T contracts the column index of both factors")
         if c not in free or free[-1] != c or len(free) != 3:
             problems.append(f"the cell axis must stay the last of three output axes (output has {len(free)} axes)")
     ctx.check("R5", not problems, mod, q, st[0],
-              "rotation must be R K R^T (or R^T K R) cell by cell: " + "; ".join(problems),
-              construct="rotate: " + ("similarity contraction" if not problems else "; ".join(problems)),
+              "rotation by R must give K' = R K R^T cell by cell: " + "; ".join(problems),
+              construct="rotate: " + ("K' = R K R^T" if not problems else "; ".join(problems)),
               facts={"factors": [(n, ix) for n, ix in factors], "free": free},
-              desc="rotate contracts both rotation factors on the same side with the two tensor indices (similarity transform)")
+              desc="rotate contracts the column index of both rotation factors with the two tensor indices: K' = R K R^T")
 
 
 # ----------------------------------------------------------------------------------------
@@ -655,5 +849,7 @@ MUTANTS = [
     _m("extra-field-not-listed", "            self._constitutive_parameters.append(key)\n", "", "R4"),
     _m("rotate-mixed-sides", "np.tensordot(R, self.values, (1, 0)), (0, 1))", "np.tensordot(R, self.values, (0, 0)), (0, 1))", "R5"),
     _m("rotate-without-transpose", "np.tensordot(R.T, np.tensordot(R, self.values, (1, 0)), (0, 1))", "np.tensordot(R, np.tensordot(R, self.values, (1, 0)), (0, 1))", "R5"),
+    _m("seed-rotate-inverse-rotation", "np.tensordot(R.T, np.tensordot(R, self.values, (1, 0)), (0, 1))",
+       "np.tensordot(R.T, np.tensordot(R, self.values, (0, 0)), (1, 1))", "R5", control=True),
     _m("rotate-same-index-twice", "np.tensordot(R, self.values, (1, 0)), (0, 1))", "np.tensordot(R, self.values, (1, 0)), (0, 0))", "R5"),
 ]
